@@ -17,5 +17,5 @@ CONSTANTS
   CsvOther = 4
   Thaw = 600
   LeaseJusticeQuirk = FALSE
-INVARIANTS B_ErrAgree JRecognised JInputs JLogMatchesTx JEngine
+INVARIANTS B_ErrAgree JRecognised JInputs JLogMatchesTx JEngine JSecondLevel
 CHECK_DEADLOCK TRUE
